@@ -402,6 +402,10 @@ let run_cmd (w : world ref) (idx : int) (line : string) : unit =
           | MrEnd -> print_string "mr end\n"
           | MrFuel -> print_string "mr fuel\n")
         reads
+  | "digest" ->
+      print_string "dg";
+      List.iter (fun n -> print_string (" " ^ string_of_n n)) (world_digest !w);
+      print_string "\n"
   | "consts" -> Printf.printf "out consts block=%d nb=%d meta=%d\n" !bs !nb !rms
   | other -> failwith ("unknown command " ^ other)
 
